@@ -233,6 +233,19 @@ fn conn_history(seed: u64, idx: usize, thorough: bool, out: &mut impl Write) {
     // frames before anything is started
     for _ in 0..rng.below(3) { c.s.step(0); c.s.step(1); }
     c.s.start_host();
+    // hosting sessions of any length (one frame included) before anybody joins: stop, idle, start again
+    if rng.chance(1, 3) {
+        for _ in 0..rng.range(1, 3) {
+            for _ in 0..rng.range(1, 4) {
+                c.s.step(0);
+            }
+            c.s.stop_host(0);
+            for _ in 0..rng.below(5) {
+                c.s.step(0);
+            }
+            c.s.restart_host();
+        }
+    }
     let steps = if thorough { rng.range(30, 90) } else { rng.range(20, 50) };
     let mut started: Vec<bool> = vec![false; (nclients + 1) as usize];
     for _ in 0..steps {
@@ -863,6 +876,20 @@ fn history(family: &str, seed: u64, idx: usize, thorough: bool, out: &mut impl W
             }
             let n0 = c.rng.range(1, 4);
             epochs(&mut c, n0);
+            // some hierarchy that is older than the promotion
+            if c.live.len() >= 2 && c.rng.chance(2, 3) {
+                let w = c.any_peer();
+                c.s.trace.push(json!({"ev":"epoch","writer":w}));
+                for _ in 0..c.rng.range(1, 3) {
+                    let a = *c.rng.pick(&c.live.clone());
+                    let b = *c.rng.pick(&c.live.clone());
+                    if b < a {
+                        c.s.set_parent(w, a, b);
+                    }
+                }
+                let d = c.drain(80);
+                c.s.trace.push(json!({"ev":"drain","quiescent":d.0,"rounds":d.1}));
+            }
             let promotions = if c.rng.chance(1, 4) { 2 } else { 1 };
             let mut host: u32 = 0;
             for _ in 0..promotions {
@@ -899,6 +926,31 @@ fn history(family: &str, seed: u64, idx: usize, thorough: bool, out: &mut impl W
                 host = new_host;
                 let hp = c.s.port_of(host);
                 c.s.port = hp;
+                // the new host (or the former one) moves children around that were linked before the hand-over
+                if c.live.len() >= 2 && c.rng.chance(2, 3) {
+                    let w = if c.rng.chance(2, 3) { host } else { c.any_peer() };
+                    c.s.trace.push(json!({"ev":"epoch","writer":w}));
+                    // children that have been given a parent so far (their link is older than the hand-over)
+                    let mut linked: Vec<u32> = vec![];
+                    for v in c.s.trace.iter() {
+                        if v["ev"] == "op" && (v["op"] == "set_parent" || (v["op"] == "spawn" && !v["parent"].is_null())) {
+                            if let Some(h) = v["h"].as_u64() {
+                                if c.live.contains(&(h as u32)) && !linked.contains(&(h as u32)) {
+                                    linked.push(h as u32);
+                                }
+                            }
+                        }
+                    }
+                    for _ in 0..c.rng.range(1, 4) {
+                        let a = if !linked.is_empty() && c.rng.chance(2, 3) { *c.rng.pick(&linked) } else { *c.rng.pick(&c.live.clone()) };
+                        let b = *c.rng.pick(&c.live.clone());
+                        if b < a {
+                            c.s.set_parent(w, a, b);
+                        }
+                    }
+                    let d = c.drain(80);
+                    c.s.trace.push(json!({"ev":"drain","quiescent":d.0,"rounds":d.1}));
+                }
                 let n1 = c.rng.range(1, 3);
                 epochs(&mut c, n1);
                 // somebody joins the new host
